@@ -200,6 +200,11 @@ func (c *MapCodec) readMapEntry(mp, k unsafe.Pointer, data []byte) (int, error) 
 		return 0, err
 	}
 
+	// A value is present if there is a field after the key, or if the first
+	// field is not the key. Note a present value can be zero bytes long (e.g. a
+	// pointer to an empty string), so this cannot be decided from the
+	// remaining length after reading the tag.
+	valuePresent := false
 	if index == 1 {
 		// Key is present - read it. k is re-used between entries and calls so
 		// clear it first: fields omitted from this key must read as zero
@@ -209,22 +214,23 @@ func (c *MapCodec) readMapEntry(mp, k unsafe.Pointer, data []byte) (int, error) 
 			return 0, fmt.Errorf("failed reading key field of %s. %w", c.rtype.Name(), err)
 		}
 		offset += n
+		if offset < len(data) {
+			offset, fieldEnd, _, wt, err = c.readTagAndLength(data, offset)
+			if err != nil {
+				return 0, err
+			}
+			valuePresent = true
+		}
 	} else {
 		k = c.kZero
+		valuePresent = len(data) != 0
 	}
 
 	// Assign/find a place in the map for this key. Val is a pointer to where
 	// the value should be. We're going to unmarshal into this directly
 	val := mapassign(unpackEFace(c.rtype).data, mp, k)
 
-	if offset < len(data) {
-		if index == 1 {
-			offset, fieldEnd, _, wt, err = c.readTagAndLength(data, offset)
-			if err != nil {
-				return 0, err
-			}
-		}
-
+	if valuePresent {
 		n, err := c.valueCodec.Read(data[offset:fieldEnd], val, wt)
 		if err != nil {
 			return 0, fmt.Errorf("failed reading value field of %s. %w", c.rtype.Name(), err)
